@@ -1,10 +1,10 @@
 package medialib
 
 import (
-	"strconv"
-	"sync/atomic"
 	"fmt"
+	"strconv"
 	"strings"
+	"sync/atomic"
 
 	"verifharness/hlib"
 )
@@ -29,6 +29,9 @@ func consFields(obs string) map[string]map[string]string {
 // differences only in internal bookkeeping (queue length, discarding flag, counters) are a
 // broken correspondence.
 func classify(got, want string) (kind, class string) {
+	if strings.HasPrefix(got, "blocked:") {
+		return "oracle", "operation-blocked"
+	}
 	g, w := consFields(got), consFields(want)
 	for k, wf := range w {
 		gf := g[k]
